@@ -390,3 +390,99 @@ def order_of_spec(n, spec):
     elif spec[0] == "shuffle":
         random.Random(spec[1]).shuffle(o)
     return o
+
+
+# -- process-history / update / verbose classes (C02) ------------------------------------------------------------
+VERBOSES = ["absent", False, True, "debug"]      # "absent": the argument is not given at all
+
+
+def rewired(rng, g, keep_order=False):
+    """A graph with the SAME ids, featuretypes and columns as g but OTHER Parent links: the lines are put into a random
+    order and every line names 0-2 earlier lines that are not among its parents in g (acyclic by construction; a parent in
+    g may become a child here).  Returns None when no link could be made (a single line)."""
+    src = g["nodes"]
+    if any(n.get("noid") for n in src):
+        return None
+    idx = list(range(len(src)))
+    if not keep_order:
+        rng.shuffle(idx)
+    nodes, links = [], 0
+    for pos, i in enumerate(idx):
+        n = dict(src[i], layer=min(pos, 3), name=None, extra=[])
+        cand = [m["id"] for m in nodes if m["id"] not in src[i]["parents"]]
+        want = min(len(cand), rng.choice([0, 1, 1, 1, 2]))
+        if pos == len(idx) - 1 and not links and cand:
+            want = max(1, want)
+        n["parents"] = rng.sample(cand, want)
+        n["style"] = rng.choice(["comma", "repeat"])
+        links += len(n["parents"])
+        nodes.append(n)
+    if not links:
+        return None
+    return {"nodes": nodes, "edge": g.get("edge", "raw")}
+
+
+def failing_prior(rng, g):
+    """An import that must FAIL half-way: the spec of a GFF3 file that uses the ids of g with other Parent links (3 of 4)
+    or ids of its own, with one spoiled spot behind at least one line that has a Parent value:
+        fail = "duplicate"   a second line with an ID already seen (default merge_strategy='error')
+               "start"       a line whose start column is no integer (stands behind the lines peeked for the dialect)
+               "two ids"     a line whose ID attribute has two values
+               "transform"   the transform raises when it is given feature number `at` (0-based)
+               "id_spec"     the id_spec callable raises at feature number `at`
+    Returns {"fail", "text", "at", "checklines", "pairs": (Parent value, id) pairs of the lines before the spot,
+    "same_ids", "db": memory|file, "input": path|string, "via": create_db|update} or None."""
+    same = rng.random() < 0.75
+    base = rewired(rng, g) if same else None
+    if base is None:
+        same = False
+        base = graph(rng, max_nodes=8)
+    nodes = base["nodes"]
+    edge = base.get("edge", "raw")
+    with_parent = [k for k, n in enumerate(nodes) if n["parents"]]
+    if not with_parent:
+        return None
+    pos = rng.randrange(with_parent[0] + 1, len(nodes) + 1)     # lines[:pos] are read before the failure
+    fail = rng.choice(["duplicate", "duplicate", "start", "two ids", "transform", "id_spec"])
+    lines = [line_of(n, edge) for n in nodes]
+    before = nodes[:pos]
+    if fail in ("transform", "id_spec"):
+        if pos == len(nodes):
+            lines.append(line_of(dict(nodes[0], id=nodes[0]["id"] + ".z", parents=[]), edge))
+    else:
+        victim = rng.choice(before)
+        spoiled = dict(victim, start=victim["start"] + 3, end=victim["end"] + 7,
+                       parents=rng.sample([n["id"] for n in before if n is not victim], min(len(before) - 1, rng.choice([0, 1, 1]))))
+        if fail == "start":
+            spoiled["id"] = victim["id"] + ".b"
+            cols = line_of(spoiled, edge).split("\t")
+            cols[3] = rng.choice(["x", "1e3", "12a", "1.5", "start"])
+            text = "\t".join(cols)
+        elif fail == "two ids":
+            spoiled["id"] = victim["id"] + ".b"
+            text = line_of(spoiled, edge).replace("ID=" + encode_id(spoiled["id"], edge), "ID=%s,%s" % (encode_id(spoiled["id"], edge), "second"), 1)
+        else:
+            text = line_of(spoiled, edge)
+        lines.insert(pos, text)
+    return {"fail": fail, "text": "\n".join(lines) + "\n", "at": pos, "checklines": max(0, min(pos - 1, rng.choice([1, 2, 10]))),
+            "pairs": sorted([p, n["id"]] for n in before for p in n["parents"]), "same_ids": same,
+            "db": "file" if rng.random() < 0.2 else "memory", "input": "string" if rng.random() < 0.2 else "path",
+            "via": "update" if rng.random() < 0.15 else "create_db"}
+
+
+def nested_spec(rng, g):
+    """A second, small import that runs INSIDE the judged one (from its transform, at feature number `at`): a graph with
+    the ids of g and other Parent links (2 of 3) or an unrelated graph."""
+    g2 = rewired(rng, g) if rng.random() < 0.67 else None
+    same = g2 is not None
+    if g2 is None:
+        g2 = graph(rng, max_nodes=6)
+    return {"graph": g2, "at": rng.randrange(len(g["nodes"])), "same_ids": same, "input": "string" if rng.random() < 0.3 else "path"}
+
+
+def third_level_split(g):
+    """Number of leading lines (parents-first order) that form layers 0-1; the rest (layer >= 2) is what an update adds
+    'under existing features'.  None when the graph has fewer than three layers."""
+    nodes = g["nodes"]
+    k = sum(1 for n in nodes if n["layer"] < 2)
+    return k if 0 < k < len(nodes) else None
